@@ -141,6 +141,15 @@ func bpArg(e ast.Expr) string {
 				return "BPArgTok" // bindingPowers[tokenType]: the operator being handled
 			}
 		}
+	case *ast.CallExpr:
+		if f, ok := v.Fun.(*ast.Ident); ok && bpFuncName != "" && f.Name == bpFuncName && len(v.Args) == 1 {
+			if id, ok := v.Args[0].(*ast.Ident); ok {
+				if strings.HasPrefix(id.Name, "t") && id.Name != "tokenType" {
+					return "BPTok " + id.Name
+				}
+				return "BPArgTok"
+			}
+		}
 	case *ast.Ident:
 		return "BPParam" // the caller's own bindingPower parameter
 	}
@@ -210,6 +219,170 @@ func callSites(fn *ast.FuncDecl) []site {
 	return out
 }
 
+// findVarOpt is findVar without the failure.
+func findVarOpt(f *ast.File, name string) ast.Expr {
+	for _, d := range f.Decls {
+		g, ok := d.(*ast.GenDecl)
+		if !ok || (g.Tok != token.VAR && g.Tok != token.CONST) {
+			continue
+		}
+		for _, s := range g.Specs {
+			vs := s.(*ast.ValueSpec)
+			for i, n := range vs.Names {
+				if n.Name == name && i < len(vs.Values) {
+					return vs.Values[i]
+				}
+			}
+		}
+	}
+	return nil
+}
+
+type tableRow struct {
+	key  ast.Expr
+	vals []ast.Expr
+}
+
+// switchTable reads a table written as a function "func f(k K) V... { switch k { case a, b: return v...
+// ... } return d... }": the rows in source order and the function's name.  want: the parameter type,
+// nres: the number of results.
+func switchTable(f *ast.File, want string, nres int, accept func(rows []tableRow) bool) ([]tableRow, string) {
+	for _, d := range f.Decls {
+		fd, ok := d.(*ast.FuncDecl)
+		if !ok || fd.Recv != nil || fd.Body == nil || fd.Type.Params == nil || len(fd.Type.Params.List) != 1 || len(fd.Type.Params.List[0].Names) != 1 {
+			continue
+		}
+		if id, ok := fd.Type.Params.List[0].Type.(*ast.Ident); !ok || id.Name != want {
+			continue
+		}
+		if fd.Type.Results == nil || fd.Type.Results.NumFields() != nres || len(fd.Body.List) != 2 {
+			continue
+		}
+		sw, ok := fd.Body.List[0].(*ast.SwitchStmt)
+		if !ok || sw.Init != nil {
+			continue
+		}
+		tag, ok := sw.Tag.(*ast.Ident)
+		if !ok || tag.Name != fd.Type.Params.List[0].Names[0].Name {
+			continue
+		}
+		if _, ok := fd.Body.List[1].(*ast.ReturnStmt); !ok {
+			continue
+		}
+		var rows []tableRow
+		good := true
+		for _, c := range sw.Body.List {
+			cc := c.(*ast.CaseClause)
+			if len(cc.List) == 0 || len(cc.Body) != 1 {
+				good = false
+				break
+			}
+			rs, ok := cc.Body[0].(*ast.ReturnStmt)
+			if !ok || len(rs.Results) != nres {
+				good = false
+				break
+			}
+			for _, k := range cc.List {
+				rows = append(rows, tableRow{k, rs.Results})
+			}
+		}
+		if good && len(rows) > 0 && (accept == nil || accept(rows)) {
+			return rows, fd.Name.Name
+		}
+	}
+	return nil, ""
+}
+
+var bpFuncName string // the function that returns binding powers, when the table is written as one
+
+// oneLineFuncs: package-level functions without receiver whose body is a single "return <expr>"
+func oneLineFuncs(f *ast.File) map[string]*ast.FuncDecl {
+	out := map[string]*ast.FuncDecl{}
+	for _, d := range f.Decls {
+		fd, ok := d.(*ast.FuncDecl)
+		if !ok || fd.Recv != nil || fd.Body == nil || len(fd.Body.List) != 1 {
+			continue
+		}
+		if rs, ok := fd.Body.List[0].(*ast.ReturnStmt); ok && len(rs.Results) == 1 {
+			out[fd.Name.Name] = fd
+		}
+	}
+	return out
+}
+
+// expandCalls replaces, in an expression, calls of one-line helper functions by their returned
+// expression with the parameters substituted (a variadic parameter by a slice literal of the
+// remaining arguments).  Only what the function table needs: identifiers, composite literals,
+// key-value pairs and calls.
+func expandCalls(e ast.Expr, helpers map[string]*ast.FuncDecl, depth int) ast.Expr {
+	if depth > 20 {
+		return e
+	}
+	switch x := e.(type) {
+	case *ast.CallExpr:
+		id, ok := x.Fun.(*ast.Ident)
+		if !ok {
+			return e
+		}
+		fd, ok := helpers[id.Name]
+		if !ok {
+			return e
+		}
+		env := map[string]ast.Expr{}
+		i := 0
+		for _, fld := range fd.Type.Params.List {
+			for _, n := range fld.Names {
+				if ell, ok := fld.Type.(*ast.Ellipsis); ok {
+					var rest []ast.Expr
+					for _, a := range x.Args[i:] {
+						rest = append(rest, expandCalls(a, helpers, depth+1))
+					}
+					env[n.Name] = &ast.CompositeLit{Type: &ast.ArrayType{Elt: ell.Elt}, Elts: rest}
+					i = len(x.Args)
+				} else if i < len(x.Args) {
+					env[n.Name] = expandCalls(x.Args[i], helpers, depth+1)
+					i++
+				}
+			}
+		}
+		body := fd.Body.List[0].(*ast.ReturnStmt).Results[0]
+		return expandCalls(substIdents(body, env), helpers, depth+1)
+	case *ast.CompositeLit:
+		out := &ast.CompositeLit{Type: x.Type}
+		for _, el := range x.Elts {
+			out.Elts = append(out.Elts, expandCalls(el, helpers, depth+1))
+		}
+		return out
+	case *ast.KeyValueExpr:
+		return &ast.KeyValueExpr{Key: x.Key, Value: expandCalls(x.Value, helpers, depth+1)}
+	}
+	return e
+}
+
+func substIdents(e ast.Expr, env map[string]ast.Expr) ast.Expr {
+	switch x := e.(type) {
+	case *ast.Ident:
+		if v, ok := env[x.Name]; ok {
+			return v
+		}
+	case *ast.CompositeLit:
+		out := &ast.CompositeLit{Type: x.Type}
+		for _, el := range x.Elts {
+			out.Elts = append(out.Elts, substIdents(el, env))
+		}
+		return out
+	case *ast.KeyValueExpr:
+		return &ast.KeyValueExpr{Key: x.Key, Value: substIdents(x.Value, env)}
+	case *ast.CallExpr:
+		out := &ast.CallExpr{Fun: x.Fun}
+		for _, a := range x.Args {
+			out.Args = append(out.Args, substIdents(a, env))
+		}
+		return out
+	}
+	return e
+}
+
 func main() {
 	if len(os.Args) == 3 && os.Args[1] == "-writes" {
 		emitWrites(os.Args[2])
@@ -252,20 +425,26 @@ func main() {
 	p("].\n\n")
 
 	// bindingPowers
-	bpLit, ok := findVar(pars, "bindingPowers").(*ast.CompositeLit)
-	if !ok {
-		die("bindingPowers is not a composite literal")
+	var bpRows []tableRow
+	if bpLit, ok := findVarOpt(pars, "bindingPowers").(*ast.CompositeLit); ok {
+		for _, e := range bpLit.Elts {
+			kv := e.(*ast.KeyValueExpr)
+			bpRows = append(bpRows, tableRow{kv.Key, []ast.Expr{kv.Value}})
+		}
+	} else if rows, name := switchTable(pars, "tokType", 1, nil); rows != nil {
+		bpRows, bpFuncName = rows, name // the table written as a switch function
+	} else {
+		die("bindingPowers: neither a map literal nor a switch function over tokType")
 	}
 	p("Definition binding_power (t : tokType) : Z :=\n  match t with\n")
 	seen := map[string]bool{}
-	for _, e := range bpLit.Elts {
-		kv := e.(*ast.KeyValueExpr)
-		k := kv.Key.(*ast.Ident).Name
+	for _, row := range bpRows {
+		k := row.key.(*ast.Ident).Name
 		if seen[k] {
 			die("duplicate key %s in bindingPowers", k)
 		}
 		seen[k] = true
-		p("  | %s => %s\n", k, intLit(kv.Value))
+		p("  | %s => %s\n", k, intLit(row.vals[0]))
 	}
 	if len(seen) < len(toks) {
 		p("  | _ => 0\n")
@@ -290,6 +469,13 @@ func main() {
 					stop = intLit(be.Y)
 				}
 			}
+			if ce, ok := be.X.(*ast.CallExpr); ok && bpFuncName != "" {
+				if f, ok := ce.Fun.(*ast.Ident); ok && f.Name == bpFuncName {
+					if _, isLit := be.Y.(*ast.BasicLit); isLit {
+						stop = intLit(be.Y)
+					}
+				}
+			}
 		}
 		return true
 	})
@@ -299,27 +485,48 @@ func main() {
 	p("Definition projection_stop : Z := %s.\n\n", stop)
 
 	// basicTokens
-	bt, ok := findVar(lexer, "basicTokens").(*ast.CompositeLit)
-	if !ok {
-		die("basicTokens is not a composite literal")
-	}
 	var bts []string
-	for _, e := range bt.Elts {
-		kv := e.(*ast.KeyValueExpr)
-		bts = append(bts, fmt.Sprintf("(%s, %s)", intLit(kv.Key), kv.Value.(*ast.Ident).Name))
+	if bt, ok := findVarOpt(lexer, "basicTokens").(*ast.CompositeLit); ok {
+		for _, e := range bt.Elts {
+			kv := e.(*ast.KeyValueExpr)
+			bts = append(bts, fmt.Sprintf("(%s, %s)", intLit(kv.Key), kv.Value.(*ast.Ident).Name))
+		}
+	} else if rows, _ := switchTable(lexer, "rune", 2, func(rows []tableRow) bool {
+		id, ok := rows[0].vals[1].(*ast.Ident)
+		return ok && id.Name == "true"
+	}); rows != nil {
+		for _, row := range rows {
+			bts = append(bts, fmt.Sprintf("(%s, %s)", intLit(row.key), row.vals[0].(*ast.Ident).Name))
+		}
+	} else {
+		die("basicTokens: neither a map literal nor a switch function from rune to (tokType, bool)")
 	}
 	p("Definition basic_tokens : list (Z * tokType) :=\n  [%s].\n\n", strings.Join(bts, "; "))
-	ws, ok := findVar(lexer, "whiteSpace").(*ast.CompositeLit)
-	if !ok {
-		die("whiteSpace is not a composite literal")
-	}
 	var wss []string
-	for _, e := range ws.Elts {
-		kv := e.(*ast.KeyValueExpr)
-		if id, ok := kv.Value.(*ast.Ident); !ok || id.Name != "true" {
-			die("whiteSpace entry is not true")
+	if ws, ok := findVarOpt(lexer, "whiteSpace").(*ast.CompositeLit); ok {
+		for _, e := range ws.Elts {
+			kv := e.(*ast.KeyValueExpr)
+			if id, ok := kv.Value.(*ast.Ident); !ok || id.Name != "true" {
+				die("whiteSpace entry is not true")
+			}
+			wss = append(wss, intLit(kv.Key))
 		}
-		wss = append(wss, intLit(kv.Key))
+	} else if rows, _ := switchTable(lexer, "rune", 1, func(rows []tableRow) bool {
+		for _, row := range rows {
+			if id, ok := row.vals[0].(*ast.Ident); !ok || id.Name != "true" {
+				return false
+			}
+			if bl, ok := row.key.(*ast.BasicLit); !ok || bl.Kind != token.CHAR {
+				return false
+			}
+		}
+		return true
+	}); rows != nil {
+		for _, row := range rows {
+			wss = append(wss, intLit(row.key))
+		}
+	} else {
+		die("whiteSpace: neither a map literal nor a switch function from rune to bool")
 	}
 	p("Definition white_space : list Z := [%s].\n\n", strings.Join(wss, "; "))
 	p("Definition identifier_start_bits : Z := %s.\n", intLit(findVar(lexer, "identifierStartBits")))
@@ -360,12 +567,15 @@ func main() {
 	}
 	p("Definition trailing_guard_lo : Z := %s.\n\n", lo)
 
-	// function table
+	// function table: the map[string]functionEntry literal of newFunctionCaller (assigned to the
+	// field or to a local); calls of one-line helper constructors inside it are expanded
 	var table *ast.CompositeLit
 	ast.Inspect(findFunc(funcs, "newFunctionCaller"), func(n ast.Node) bool {
-		if as, ok := n.(*ast.AssignStmt); ok && len(as.Rhs) == 1 {
-			if sel, ok := as.Lhs[0].(*ast.SelectorExpr); ok && sel.Sel.Name == "functionTable" {
-				table, _ = as.Rhs[0].(*ast.CompositeLit)
+		if cl, ok := n.(*ast.CompositeLit); ok && table == nil {
+			if mt, ok := cl.Type.(*ast.MapType); ok {
+				if id, ok := mt.Value.(*ast.Ident); ok && id.Name == "functionEntry" {
+					table = cl
+				}
 			}
 		}
 		return true
@@ -373,6 +583,7 @@ func main() {
 	if table == nil {
 		die("functionTable literal not found")
 	}
+	helpers := oneLineFuncs(funcs)
 	type entry struct{ key, text string }
 	var entries []entry
 	for _, e := range table.Elts {
@@ -390,14 +601,23 @@ func main() {
 			case "hasExpRef":
 				hasExp = fkv.Value.(*ast.Ident).Name
 			case "arguments":
-				for _, a := range fkv.Value.(*ast.CompositeLit).Elts {
+				argsLit, ok := expandCalls(fkv.Value, helpers, 0).(*ast.CompositeLit)
+				if !ok {
+					die("arguments of %s: not a literal (after expanding one-line helpers)", key)
+				}
+				for _, a0 := range argsLit.Elts {
+					a := expandCalls(a0, helpers, 0)
 					var types []string
 					variadic := "false"
 					for _, af := range a.(*ast.CompositeLit).Elts {
 						akv := af.(*ast.KeyValueExpr)
 						switch akv.Key.(*ast.Ident).Name {
 						case "types":
-							for _, t := range akv.Value.(*ast.CompositeLit).Elts {
+							tl, ok := expandCalls(akv.Value, helpers, 0).(*ast.CompositeLit)
+							if !ok {
+								die("types of an argument of %s: not a literal", key)
+							}
+							for _, t := range tl.Elts {
 								types = append(types, t.(*ast.Ident).Name)
 							}
 						case "variadic":
